@@ -119,6 +119,15 @@ def Hier.ofTables (absAnc : List (Abs × List Abs)) (ifaces : List Iface) : Hier
   anc := lookupD absAnc []
   bases := fun c => ((ifaces.find? (·.code == c)).map (·.bases)).getD []
 
+/-- Strictly increasing, every element above `lo` (a linear-time witness of duplicate-freeness for sorted tables). -/
+def incFrom : Nat → List Nat → Bool
+  | _, [] => true
+  | lo, x :: xs => decide (lo < x) && incFrom x xs
+
+def strictlyIncreasing : List Nat → Bool
+  | [] => true
+  | x :: xs => incFrom x xs
+
 def Row.node? (r : Row) : Option NodeClass :=
   match r.fired with
   | [k] => some { category := r.category, accept := k }
